@@ -93,6 +93,23 @@ fn cases() -> Vec<Case> {
             }
         }
     }
+    // type expressions that name schema types (the printer must keep them pointing at the ambient type, not at the
+    // schema type of the same name declared in the generated file)
+    let shadow_schema = "type Query { a(x: Sc, f: Filter): Sc u: User c: Color }\ntype User { id: ID }\ninput Filter { w: Sc }\nenum Color { RED }\nscalar Sc\nscalar Other\n";
+    let shadow_confs: [(&str, String, [&'static str; 4]); 6] = [
+        ("single naming the scalar itself", "          Sc: Sc\n".into(), ["Sc", "Sc", "Sc", "Sc"]),
+        ("send names the scalar, receive does not", "          Sc:\n            send: Sc | string\n            receive: string\n".into(), ["Sc | string", "string", "string", "Sc | string"]),
+        ("receive names the scalar, send does not", "          Sc:\n            send: string\n            receive: Sc | string\n".into(), ["string", "Sc | string", "Sc | string", "string"]),
+        ("separate, each target names a different schema type", "          Sc:\n            operationInput: User\n            operationOutput: Filter\n            resolverInput: Color\n            resolverOutput: Query\n".into(), ["User", "Filter", "Color", "Query"]),
+        ("only the operation input names a schema type", "          Sc:\n            operationInput: User | null\n            operationOutput: string\n            resolverInput: string\n            resolverOutput: string\n".into(), ["User | null", "string", "string", "string"]),
+        ("only the resolver output names a schema type", "          Sc:\n            operationInput: string\n            operationOutput: string\n            resolverInput: string\n            resolverOutput: Color[]\n".into(), ["string", "string", "string", "Color[]"]),
+    ];
+    for (label, conf, exp) in shadow_confs {
+        let config = format!(
+            "schema: ./schema/*.graphql\nextensions:\n  nitrogql:\n    generate:\n      schemaOutput: ./out/schema.d.ts\n      type:\n        scalarTypes:\n          Other: OX\n{conf}"
+        );
+        v.push(Case { label: format!("type expression naming schema types: {label}"), config, schema: shadow_schema.into(), expect: Some(exp) });
+    }
     v
 }
 
@@ -103,9 +120,42 @@ fn alias_in(ts: &str, ns: &str, name: &str) -> Option<String> {
     let end = body.find("\n}\n").unwrap_or(body.len());
     let body = &body[..end];
     let key = format!("export type {name} = ");
-    let i = body.find(&key)?;
-    let rest = &body[i + key.len()..];
-    Some(rest[..rest.find(';')?].trim().to_string())
+    if let Some(i) = body.find(&key) {
+        let rest = &body[i + key.len()..];
+        return Some(rest[..rest.find(';')?].trim().to_string());
+    }
+    // renamed form:  type __tmp_N = RHS;  export type { __tmp_N as N};
+    if body.contains(&format!("export type {{ __tmp_{name} as {name}")) {
+        let key = format!("type __tmp_{name} = ");
+        let i = body.find(&key)?;
+        let rest = &body[i + key.len()..];
+        return Some(rest[..rest.find(';')?].trim().to_string());
+    }
+    None
+}
+/// names bound by `type N =` / `export type N =` directly in a namespace body or at module level (indent = 2 or 0 spaces)
+fn bound_names(ts: &str, ns: Option<&str>) -> Vec<String> {
+    let (body, indent) = match ns {
+        Some(ns) => {
+            let Some(start) = ts.find(&format!("export declare namespace {ns} {{")) else { return vec![] };
+            let b = &ts[start..];
+            (&b[..b.find("\n}\n").unwrap_or(b.len())], "  ")
+        }
+        None => (ts, ""),
+    };
+    let mut v = vec![];
+    for line in body.lines() {
+        for kw in ["export type ", "type "] {
+            if let Some(rest) = line.strip_prefix(&format!("{indent}{kw}")) {
+                let id: String = rest.chars().take_while(|c| c.is_alphanumeric() || *c == '_').collect();
+                if !id.is_empty() && rest[id.len()..].trim_start().starts_with('=') || rest[id.len()..].starts_with('<') {
+                    v.push(id);
+                }
+                break;
+            }
+        }
+    }
+    v
 }
 
 fn main() {
@@ -154,7 +204,25 @@ fn main() {
                 let got: Vec<String> = TARGETS.iter().map(|t| alias_in(&ts, t, "Sc").unwrap_or_else(|| "-".into())).collect();
                 let other: Vec<String> = TARGETS.iter().map(|t| alias_in(&ts, t, "Other").unwrap_or_else(|| "-".into())).collect();
                 let wrong: Vec<String> = (0..4).filter(|k| got[*k] != exp[*k]).map(|k| TARGETS[k].to_string()).collect();
-                if !wrong.is_empty() {
+                // an identifier of a configured type expression that is also a schema type must not be bound in the
+                // namespace that uses it, nor at module level (it would capture the ambient type the user means)
+                let schema_names: Vec<&str> = c.schema.lines().filter_map(|l| { let mut w = l.split_whitespace(); match (w.next(), w.next()) { (Some("type" | "input" | "enum" | "scalar" | "interface" | "union"), Some(n)) => Some(n), _ => None } }).collect();
+                let mut captured = vec![];
+                for k in 0..4 {
+                    for id in exp[k].split(|ch: char| !(ch.is_alphanumeric() || ch == '_')).filter(|w| !w.is_empty()) {
+                        if schema_names.contains(&id) {
+                            if bound_names(&ts, Some(TARGETS[k])).iter().any(|b| b == id) {
+                                captured.push(format!("{id} is bound inside {}", TARGETS[k]));
+                            }
+                            if bound_names(&ts, None).iter().any(|b| b == id) {
+                                captured.push(format!("{id} (used in {}) is bound at module level", TARGETS[k]));
+                            }
+                        }
+                    }
+                }
+                if !captured.is_empty() && wrong.is_empty() {
+                    failures.push((i, "a configured type expression is captured by a schema type of the same name".into(), input, format!("expected {exp:?} to keep denoting ambient types"), captured.join("; ")));
+                } else if !wrong.is_empty() {
                     failures.push((i, format!("wrong TypeScript type for the scalar in {}", wrong.join(", ")), input, format!("expected {exp:?} in {TARGETS:?}"), format!("{got:?}")));
                 } else if other.iter().any(|o| o != "OX") {
                     failures.push((i, "the other scalar's type changed".into(), input, "expected OX everywhere".into(), format!("{other:?}")));
